@@ -346,6 +346,18 @@ val hl_insert : 'a1 hlist -> 'a1 -> prio -> 'a1 hlist
 
 val hl_remove : ('a1 -> 'a1 -> bool) -> 'a1 hlist -> 'a1 -> 'a1 hlist
 
+type outcome =
+| Finished
+| Aborted
+
+val step :
+  ('a2 -> 'a1 -> ('a2 list * 'a1) * bool) -> 'a2 list -> 'a1 -> ((('a2 * 'a2
+  list) * 'a1) * bool) option
+
+val flush :
+  ('a2 -> 'a1 -> ('a2 list * 'a1) * bool) -> ('a2 list -> 'a1 -> 'a1) -> nat
+  -> 'a2 list -> 'a1 -> 'a2 list -> (('a2 list * 'a1) * outcome) option
+
 val ctag_has_drop : n -> bool
 
 val ctag_zst : n -> bool
@@ -680,13 +692,21 @@ val deliver_one :
 
 val unwind_queue : qitem list -> world -> world
 
+type wst = world * fail option
+
+val run_w :
+  (hinfo -> logent -> n -> script) -> qitem -> wst -> (qitem
+  list * wst) * bool
+
+val unwind_w : qitem list -> wst -> wst
+
 val flush_loop :
   (hinfo -> logent -> n -> script) -> nat -> qitem list -> world ->
   world * fail option
 
 val fUEL : nat
 
-val flush :
+val flush0 :
   (hinfo -> logent -> n -> script) -> qitem list -> world -> unit res
 
 val gkind : n -> ekind
